@@ -123,6 +123,8 @@ class C12(Spec):
                             "ErrNotEnoughData" % (where, out[:40]))
             elif op in ("bytes", "str"):
                 r = unleb(data, pos)
+                if ok and out.startswith("ok:oversize"):
+                    return ("readbytes-inexact", "%s returned %s bytes, more than the whole input holds" % (where, out[11:]))
                 if ok:
                     got = unhex(out[3:])
                     fifth_over = (len(data) - pos >= 5 and all(data[pos + i] & 0x80 for i in range(4)) and data[pos + 4] > 15)
